@@ -116,7 +116,10 @@ def gen_history(rng: random.Random, nstruct=4, length=12, invalid_p=0.0, max_pin
         if sizes[0] == 0:
             sizes[0] = 1
         k = rng.randrange(sizes[0])
-        if rng.random() < 0.5:
+        late_map = rng.random() < 0.3      # the third order: the pin is wired FIRST and exposed while it is wired
+        if late_map:
+            pass
+        elif rng.random() < 0.5:
             emit(["map", "x77", [0, k]])
             tr.mapped["x77"] = (0, k)
         else:
@@ -130,6 +133,9 @@ def gen_history(rng: random.Random, nstruct=4, length=12, invalid_p=0.0, max_pin
         if cand:
             j = cand[0]
             do_connect((0, k), (j, rng.randrange(sizes[j])))
+            if late_map:
+                emit(["map", "x77", [0, k]])
+                tr.mapped["x77"] = (0, k)
             if rng.random() < 0.5 and nstruct >= 3:
                 do_add(2)
                 emit(["raise"])
@@ -315,7 +321,9 @@ def gen_history(rng: random.Random, nstruct=4, length=12, invalid_p=0.0, max_pin
                 emit(["solve"])
     if tr.present:
         emit(["solve"])
-    return {"comps": comps, "ops": ops}
+    # a quarter of the histories start from a solver CONSTRUCTED with their leading adds / connects
+    # (Solver(structures=[...], connections={...})) instead of issuing them one by one
+    return {"comps": comps, "ops": ops, "ctor": rng.random() < 0.25}
 
 
 # ---------------------------------------------------------------------------------------------
@@ -491,7 +499,44 @@ def run_history(desc, by_name=False):
     drv = Driver(desc, by_name)
     obs = []
     ops = []
-    for op in desc["ops"]:
+    todo = list(desc["ops"])
+    k = 0
+    seen_pins, seen_sts = set(), set()
+    while k < len(todo) and todo[k][0] in ("add", "connect"):
+        # only first-time adds and links between pins not yet used: a repetition is a call of its own, not part of a netlist
+        if todo[k][0] == "add":
+            if todo[k][1] in seen_sts:
+                break
+            seen_sts.add(todo[k][1])
+        else:
+            ends = {tuple(todo[k][1]), tuple(todo[k][2])}
+            if ends & seen_pins or len(ends) < 2:
+                break
+            seen_pins |= ends
+        k += 1
+    if desc.get("ctor") and k >= 2:
+        # the states after the leading adds / connects are observed on a throw-away solver that issues them one by one;
+        # the solver the rest of the history works on is CONSTRUCTED with those structures and links at once
+        tmp = Driver(desc, by_name)
+        pre = []
+        for op in todo[:k]:
+            ok, mod = tmp.apply(op)
+            pre.append((ok, tmp.observe(ok, mod)))
+        if all(ok for ok, _ in pre):
+            sts, conns = [], {}
+            for op in todo[:k]:
+                if op[0] == "add":
+                    sts.append(drv.structure(op[1]))
+                    drv.added.add(op[1])
+                else:
+                    x, y = op[1], op[2]
+                    conns[(drv.structure(x[0]), drv.pin(x))] = (drv.structure(y[0]), drv.pin(y))
+            drv.sol = lk.Solver(structures=sts, connections=conns)
+            for op, (ok, o) in zip(todo[:k], pre):
+                obs.append(o)
+                ops.append(["add", op[1], desc["comps"][op[1]]["n"]] if op[0] == "add" else list(op))
+            todo = todo[k:]
+    for op in todo:
         ok, mod = drv.apply(op)
         if op[0] == "setp":
             continue                  # parameter defaults are not part of the wiring model
